@@ -548,7 +548,14 @@ def run_one(funcs, o, tier):
                 detail["checks"].append(cd)
                 continue
         # witness twin: the guarded event is reachable at all
-        if check[0] in ("precedes_ok", "precedes", "precedes_true", "not_after_fail", "last_is"):
+        if check[0] == "ok_requires":
+            wl, wbad, _ = ENC.build_smt(g, spec, ("reach", check[1]))
+            wr, _, wdt, _ = ENC.solve(wl, wbad)
+            queries += 1; solver_s += wdt
+            cd["witness"] = wr
+            if wr != "sat":
+                witnessed = False
+        elif check[0] in ("precedes_ok", "precedes", "precedes_true", "not_after_fail", "last_is"):
             wl, wbad, _ = ENC.build_smt(g, spec, ("reach", check[2]))
             wr, _, wdt, _ = ENC.solve(wl, wbad)
             queries += 1; solver_s += wdt
